@@ -53,6 +53,15 @@ func routingItems(harness string, stages func(tbl int) []int) func(tier string, 
 				out = append(out, item{Harness: harness, Cfg: []int{g.idx, router, 0}, Label: "generated table (pair of templates from the grammar on service /t)"})
 			}
 		}
+		// generated root-path tables: one or two WebServices with roots from the root grammar
+		for _, g := range genRootSample(tier, seed, 12, func(g genRootInfo) bool { return true }) {
+			for router := 0; router < 2; router++ {
+				if router == 1 && (g.curly || g.nullable) {
+					continue
+				}
+				out = append(out, item{Harness: harness, Cfg: []int{g.idx, router, 0}, Label: "generated root-path table (one or two WebServices, roots from the root grammar, routes GET / and GET /e)"})
+			}
+		}
 		// generated media tables (header stage): 528 unordered pairs; a seeded sample of 6 in quick
 		if harness == "H_C01" || harness == "H_C02" {
 			const nMedia = 32 * 33 / 2
@@ -107,7 +116,7 @@ func properties() map[string]*propDef {
 		RequiredCovers: []string{"invoked", "404", "405", "415", "406", "definite", "indefinite"},
 	}
 	routingBounds := map[string]interface{}{"path_bytes": "12 (thorough, core tables: 20)", "segments": "3 (thorough, core tables: 5)", "method_bytes": 7, "core_tables": nCoreTables,
-		"generated_tables": "pairs of templates over {a, b, {v}, {v:[0-9]+}, {v:[0-9]*}, ab{v}ba, {v}.x, p{v}, a:go, {v}:go, {v:*}} with 1-2 segments on service /t, same or different methods: 24 by seed in quick, all 2244 in thorough"}
+		"generated_tables": "pairs of templates over {a, b, {v}, {v:[0-9]+}, {v:[0-9]*}, ab{v}ba, {v}.x, p{v}, a:go, {v}:go, {v:*}} with 1-2 segments on service /t, same or different methods: 24 by seed in quick, all 2244 in thorough", "generated_root_tables": "one or two WebServices with root paths from {/a, /a/b, /{v}, /{v:[0-9]+}, /{v}.x, /p{v}, /a/{v}, /{v}/b, /a/{v}.x, /{v:[0-9]*}, /, /a/{v:[0-9]+}} (78 tables: 12 by seed in quick, all in thorough)"}
 	m["C04"] = &propDef{
 		ID: "C04",
 		Items: func(tier string, seed int) []item {
@@ -148,6 +157,12 @@ func properties() map[string]*propDef {
 					out = append(out, item{Harness: "H_C14", Cfg: []int{g.idx, router, 0}, Label: "generated table"})
 				}
 			}
+			for _, g := range genRootSample(tier, seed, 12, func(g genRootInfo) bool { return true }) {
+				out = append(out, item{Harness: "H_C14", Cfg: []int{g.idx, 0, 0}, Label: "generated root-path table"})
+				if !g.curly && !g.nullable {
+					out = append(out, item{Harness: "H_C14", Cfg: []int{g.idx, 1, 0}, Label: "generated root-path table, RouterJSR311"})
+				}
+			}
 			return out
 		},
 		Bounds:         map[string]interface{}{"path_bytes": 11, "segments": 3, "method_bytes": 7, "tables": nCoreTables},
@@ -171,6 +186,9 @@ func properties() map[string]*propDef {
 			}
 			for _, g := range generatedFor(tier, seed, 24, func(g genInfo) bool { return g.plain }) {
 				out = append(out, item{Harness: "H_C18", Cfg: []int{g.idx, 0}, Label: "generated table of the common fragment"})
+			}
+			for _, g := range genRootSample(tier, seed, 6, func(g genRootInfo) bool { return g.literal }) {
+				out = append(out, item{Harness: "H_C18", Cfg: []int{g.idx, 0}, Label: "generated root-path table with literal roots"})
 			}
 			return out
 		},
@@ -215,6 +233,12 @@ func properties() map[string]*propDef {
 						continue
 					}
 					out = append(out, item{Harness: "H_C03", Cfg: []int{g.idx, router, 1}, Label: "generated table, routes registered in reverse order"})
+				}
+			}
+			for _, g := range genRootSample(tier, seed, 12, func(g genRootInfo) bool { return !g.single }) {
+				out = append(out, item{Harness: "H_C03", Cfg: []int{g.idx, 0, 1}, Label: "generated root-path table, WebServices registered in reverse order"})
+				if g.literal {
+					out = append(out, item{Harness: "H_C03", Cfg: []int{g.idx, 1, 1}, Label: "generated root-path table (literal roots), RouterJSR311"})
 				}
 			}
 			return out
@@ -320,7 +344,7 @@ func properties() map[string]*propDef {
 			} else {
 				seq(0, 9)
 				seq(1, 9)
-				seq(2, 1)
+				seq(2, 0)
 				seq(3, 8)
 			}
 			if tier == "quick" {
